@@ -28,9 +28,11 @@ struct Tracer
 	std::map<const void*, BlockInfo> info;
 	size_t h_violations = 0, misrouted = 0, n_pool = 0, n_raw = 0, n_reparam = 0, n_events = 0;
 	uint64_t a0 = 0, d0 = 0; size_t e0 = 0, l0 = 0;
+	std::string fatal;      // set when the real allocator did something after which the run cannot sensibly continue
+	std::string pending;    // the allocator call in flight (reported by the crash handler)
 
 	void reset() { events.clear(); obs.clear(); nh = nb = 0; blk.clear(); info.clear();
-		h_violations = misrouted = n_pool = n_raw = n_reparam = n_events = 0; }
+		h_violations = misrouted = n_pool = n_raw = n_reparam = n_events = 0; fatal.clear(); pending.clear(); }
 	void pre() { kit::World& w = kit::W(); a0 = w.n_alloc; d0 = w.n_dealloc; e0 = w.errors.size(); l0 = w.log.size(); }
 	// base-allocator calls since pre(): deallocate calls that the registry rejected (unknown block) still count as calls
 	size_t allocs() const { return size_t(kit::W().n_alloc - a0); }
@@ -57,7 +59,7 @@ struct Tracer
 	{
 		if (!p) return "dead";
 		return std::to_string(p.use_count()) + " " + std::to_string(p->GetAllocateCount()) + " "
-			+ std::to_string(p->GetBlockSize()) + " " + std::to_string(p->GetBlockAlignment());
+			+ std::to_string(p->GetBlockSize()) + " " + std::to_string(p->GetBlockAlignment()) + " " + std::to_string(p->mCachedCount);
 	}
 	void ev(const std::string& e, const std::string& o)
 	{
@@ -82,7 +84,7 @@ struct PostLog
 		std::shared_ptr<Pool> p = wp.lock();
 		std::string st;
 		if (p) { st = std::to_string(p.use_count() - 1) + " " + std::to_string(p->GetAllocateCount()) + " "
-			+ std::to_string(p->GetBlockSize()) + " " + std::to_string(p->GetBlockAlignment()); }
+			+ std::to_string(p->GetBlockSize()) + " " + std::to_string(p->GetBlockAlignment()) + " " + std::to_string(p->mCachedCount); }
 		else { st = "dead"; wp.reset(); }   // drop the weak reference: the control block goes back to the base allocator now
 		g.ev("X " + std::to_string(hid), "- " + st + " " + std::to_string(g.allocs()) + " " + std::to_string(g.frees()) + " 1 1 1");
 	}
@@ -102,6 +104,14 @@ struct Mon : PostLog, PA<T>
 	{ hid = G().nh++; G().ev("N " + vt(), "- " + tail() + " 1 1 1"); }
 	Mon(const Mon& o) noexcept : PostLog(), P((G().pre(), static_cast<const P&>(o)))
 	{ hid = G().nh++; G().ev("C " + std::to_string(o.hid), "- " + tail() + " 1 1 1"); }
+	// construction from an rvalue: forwards to whatever PA<T> does for an rvalue PA<T> (in the unchanged tree: the copy constructor)
+	Mon(Mon&& o) noexcept : PostLog(), P((G().pre(), static_cast<P&&>(o)))
+	{
+		hid = G().nh++;
+		bool src_kept = (o.mMemPool != nullptr && o.mMemPool == this->mMemPool);
+		if (!src_kept && G().fatal.empty()) G().fatal = "allocator constructed from an rvalue: the source allocator lost its pool";
+		G().ev("M " + std::to_string(o.hid), "- " + tail() + " 1 1 " + (src_kept ? "1" : "0"));
+	}
 	template<class U> Mon(const Mon<U>& o) noexcept : PostLog(), P((G().pre(), static_cast<P>(static_cast<const PA<U>&>(o))))
 	{ hid = G().nh++; G().ev("R " + std::to_string(o.hid) + " " + vt(), "- " + tail() + " 1 1 1"); }
 	Mon(SoccTag, const Mon& o) : PostLog(), P((G().pre(), o.P::select_on_container_copy_construction()))
@@ -131,7 +141,17 @@ struct Mon : PostLog, PA<T>
 		if (!hok) ++g.h_violations;
 		size_t cnt0 = pool->GetAllocateCount(); size_t bs0 = pool->GetBlockSize(), al0 = pool->GetBlockAlignment();
 		g.pre();
-		T* p = P::allocate(n);
+		g.pending = "A " + std::to_string(hid) + " " + std::to_string(n);
+		T* p;
+		try { p = P::allocate(n); }
+		catch (const std::bad_alloc&)
+		{	// base allocator failure: report the state the allocator is left in, then propagate
+			g.pending.clear();
+			if (g.on) g.ev("F " + std::to_string(hid) + " " + std::to_string(n) + " " + std::to_string(g.allocs()),
+				"E " + tail() + " " + (hok ? "1" : "0") + " 1 1");
+			throw;
+		}
+		g.pending.clear();
 		bool pooled = pool->GetAllocateCount() == cnt0 + 1;
 		bool reparam = pooled && (pool->GetBlockSize() != bs0 || pool->GetBlockAlignment() != al0);
 		std::string dest;
@@ -158,7 +178,9 @@ struct Mon : PostLog, PA<T>
 		Pool* pool = this->mMemPool.get();
 		size_t cnt0 = pool->GetAllocateCount();
 		g.pre();
+		g.pending = "D " + std::to_string(hid) + " " + std::to_string(n);
 		P::deallocate(p, n);
+		g.pending.clear();
 		bool to_pool = pool->GetAllocateCount() + 1 == cnt0;
 		if (!g.on) return;
 		std::string dest = to_pool ? "P" + std::to_string(pool->GetBlockSize()) + "/" + std::to_string(pool->GetBlockAlignment())
